@@ -200,16 +200,29 @@ def run_case(spec):
                 ls = data.splitlines(keepends=True)
                 new = b''.join(ls[:-1]) if len([x for x in ls if not x.startswith(b'#')]) > 1 else data + b'\n'
             open(p, 'wb').write(new)
-            pool2 = VariantRecordPoolOnDisk(gvf_files=[p])
-            try:
-                with VariantRecordPoolOnDiskOpener(pool2):
-                    pass
-                viol.append({'kind': 'stale-index-accepted', 'msg': f'{p.name} edited ({mode}) after indexing, index still accepted'})
-            except ValueError:
-                counters['stale_rejected'] = 1
-            finally:
-                for h in pool2.gvf_handles:
-                    h.close()
+            # the stale file alone, and inside the whole pool in the original and in a random order (files without an
+            # .idx and files with a fresh one before and after it): opening must fail every time
+            perm = list(paths)
+            rng.shuffle(perm)
+            orders = [[p]] + ([list(paths), perm] if len(paths) > 1 else [])
+            for order in orders:
+                pool2 = VariantRecordPoolOnDisk(gvf_files=order)
+                try:
+                    with VariantRecordPoolOnDiskOpener(pool2):
+                        pass
+                    pos = [('stale' if q == p else ('idx' if q in indexed else 'noidx')) for q in order]
+                    viol.append({'kind': 'stale-index-accepted',
+                                 'msg': f'{p.name} edited ({mode}) after indexing, index still accepted when the pool is opened as {pos}'})
+                    break
+                except ValueError:
+                    counters['stale_rejected'] = counters.get('stale_rejected', 0) + 1
+                    if len(order) > 1:
+                        counters['stale_rejected_in_pool'] = counters.get('stale_rejected_in_pool', 0) + 1
+                        if order.index(p) > 0 and any(q not in indexed for q in order[:order.index(p)]):
+                            counters['stale_after_unindexed'] = counters.get('stale_after_unindexed', 0) + 1
+                finally:
+                    for h in pool2.gvf_handles:
+                        h.close()
         feat = (tuple(sorted(fam)), len(files), bool(indexed), unicode_src, len(expect) > 1)
         return {'nontrivial': n_rt > 0, 'feature': feat, 'violations': viol, 'counters': counters,
                 'sample': {'files': [os.path.basename(p) for p, _, _ in files], 'records': n_rt,
@@ -229,9 +242,9 @@ def check(rep, tier, seed, specs=None, n_override=None):
                 'optionally with the same record in two files and non-ASCII characters in the source label and attribute values; '
                 '(1) parse -> to_string -> parse -> to_string must be a fixed point and preserve every field and attribute of the input line '
                 '(own line parser), also through the repository writers; (2) records reached through byte-offset pointers (half of the files '
-                'with an indexGVF .idx) must equal a linear scan per transcript; (3) editing an indexed file must make opening fail. '
+                'with an indexGVF .idx) must equal a linear scan per transcript; (3) editing an indexed file must make opening fail, for the file alone and for the whole pool in its original and in a random order. '
                 'non-trivial = >= 1 record; distinct = (kinds, #files, idx used, unicode, multi-transcript).')
     rep.absorb(results, lost)
-    for k in ('roundtrip_records', 'index_keys', 'stale_rejected', 'files_with_idx', 'files_without_idx'):
+    for k in ('roundtrip_records', 'index_keys', 'stale_rejected', 'stale_rejected_in_pool', 'stale_after_unindexed', 'files_with_idx', 'files_without_idx'):
         if not rep.counters.get(k):
             rep.inconclusive.append(f'monitor {k} had zero evaluations')
